@@ -9,7 +9,8 @@
    All theorems quantify over every history, every behaviour table and every positive random stream. *)
 Require Import ZArith List Bool Lia Sorted.
 Require Import Verif.gen.Consts_loop Verif.LoopModel Verif.LoopProofs_C08a Verif.LoopProofs_C08b Verif.LoopProofs_C08c
-               Verif.LoopProofs_C08d Verif.LoopProofs_C08e Verif.LoopProofs_C08f Verif.LoopProofs_C08g Verif.LoopProofs_C08h.
+               Verif.LoopProofs_C08d Verif.LoopProofs_C08e Verif.LoopProofs_C08f Verif.LoopProofs_C08g Verif.LoopProofs_C08h
+               Verif.LoopProofs_C10 Verif.LoopProofs_C10w Verif.LoopProofs_C10b Verif.LoopProofs_C10d.
 Import ListNotations.
 Open Scope Z_scope.
 
@@ -36,6 +37,16 @@ Proof. exact deleted_not_live. Qed.
 Theorem C08_job_timer_at_most_once : forall f beh h rnd post pre k u, fx_sigdel f = true -> good_rand rnd -> (k = 0 \/ k = 1) ->
   out (run_history_fx f beh h rnd) = post ++ EvInv k u :: pre -> ~ In (EvInv k u) post /\ ~ In (EvInv k u) pre.
 Proof. exact job_timer_at_most_once. Qed.
+
+(* exactly once, liveness half with its bound (workloads without deletions and signal registrations): the job at position k
+   of its level's job list has entered its callback - EvInv in the log of the final state - after 3 * (k / to_process + 1)
+   consecutive full turns of a loop that is not stopped; with C08_job_timer_at_most_once: exactly once.  An expired timer
+   (C08_timer_due_is_queued) and a ready descriptor (C08_fd_event_queues) are on that list from the turn they became due *)
+Theorem C08_job_entered_within : forall beh envs rs st st' rs' ts p k u key,
+  workload beh -> nosig st -> length envs = (3 * (Z.to_nat (Z.of_nat k / LOOP_TO_PROCESS) + 1))%nat ->
+  turns beh envs rs st = (st', rs', ts) -> (forall t, In t ts -> ti_returned t = false) ->
+  nth_error (jq st p) k = Some (QJob u key) -> In (EvInv 0 u) (out st').
+Proof. exact job_entered_within. Qed.
 
 (* FIFO per priority (state form): in every reachable state the jobs of one priority sit on job_head ++ wait_head in the
    order of their qb_loop_job_add calls (uids are handed out in call order), and qb_loop_run_level always dispatches the
@@ -172,6 +183,7 @@ Print Assumptions C08_wf.
 Print Assumptions C08_del_never_again.
 Print Assumptions C08_deleted_not_registered.
 Print Assumptions C08_job_timer_at_most_once.
+Print Assumptions C08_job_entered_within.
 Print Assumptions C08_fifo_queue_order.
 Print Assumptions C08_run_level_takes_head.
 Print Assumptions C08_job_del_logs.
